@@ -929,7 +929,8 @@ class Interp:
                 m_ = self._class_method(base.kind, node.attr)
                 if m_ is not None and any(isinstance(d, ast.Name) and d.id == "property" for d in m_.node.decorator_list):
                     return self.call_func(m_, [], {}, self_obj=base, node=node)
-            if isinstance(base, Opaque) and (base.name in ("self", "cls") or isinstance(base.attrs.get("__class__"), TypeVal)):
+            if isinstance(base, Opaque) and (base.name in ("self", "cls") or isinstance(base.attrs.get("__class__"), TypeVal)
+                                             or (base.attrs and base.kind not in ("obj", "iter", "list", "dict", "set") and self._class_of_kind(base.kind) is not None)):
                 # a class-level constant (self._SQL): the class body assignment, along the MRO of the receiver's class
                 func = env.get("__func__")
                 c = None
@@ -1621,6 +1622,10 @@ class Interp:
             if getattr(self, "trace", None) is not None:
                 del self.trace.events[n_ev:]
         return cache[k.qual]
+
+    def _class_of_kind(self, kind):
+        cs = [c for q, c in self.proj.classes.items() if q.split(".")[-1] == kind]
+        return cs[0] if len(cs) == 1 else None
 
     def _class_method(self, kind, name):
         cs = [c for q, c in self.proj.classes.items() if q.split(".")[-1] == kind]
